@@ -73,14 +73,18 @@ func (s *Server) checkHost(
 }
 
 // isRewrittenCNAME returns true if the request considered to be rewritten with
-// CNAME and has no resolved IPs.
+// CNAME and has no resolved IPs, so that the canonical name must be resolved
+// upstream.  It returns false if the canonical name is matched by the legacy
+// rewrites but has no value for the question type, since the response must be
+// empty in that case.
 func isRewrittenCNAME(res *filtering.Result) (ok bool) {
 	return res.Reason.In(
 		filtering.Rewritten,
 		filtering.RewrittenRule,
 		filtering.FilteredSafeSearch) &&
 		res.CanonName != "" &&
-		len(res.IPList) == 0
+		len(res.IPList) == 0 &&
+		!res.CanonNameMatched
 }
 
 // checkHostRules checks the host against filters.  It is safe for concurrent
